@@ -34,11 +34,18 @@
     duplicate avoidance with the testedEdges set as repaired, conservative cell distances) are
     covered by [approx_single_result_within_error] and [approx_results_within_error].
 
-    TODO: [CoverFinite] from the transcribed clean-up loop of initQueue; LB / Val for the float
+    For a finite limit the clean-up loop of initQueue is proved to hand over only sound entries
+    ([centry_ok]: an entry with contents is an index cell UNDER ITS OWN ID with exactly its
+    contents; in the LocateCellID = Indexed branch it is the index cell containing the initial
+    cell, which rules out seeded change C08-mut3); [CoverFinite] keeps only: the initial cells are
+    valid ids, fewer than 2^17, and the entries represent every index cell within the limit.
+
+    TODO: the representation half of [CoverFinite] (skip / indexCovering walk of the clean-up
+    loop given the search cap's covering); LB / Val for the float
     distance functions (H-CELLDIST, H-EDGEDIST). *)
 From Coq Require Import ZArith List Bool Sorted.
 From Geo Require Import Model.EdgeQuery Proofs.C05_CellFacts Proofs.C08_Post Proofs.C08_Opt Proofs.C08_Heap Proofs.C08_Main Proofs.C08_Refute
-  Proofs.C08_Cells Proofs.C08_Split Proofs.C08_Term Proofs.C08_Cover Proofs.C08_Approx Proofs.C08_Final Proofs.C08_Example.
+  Proofs.C08_Cells Proofs.C08_Split Proofs.C08_Term Proofs.C08_Cover Proofs.C08_Cleanup Proofs.C08_Approx Proofs.C08_Final Proofs.C08_Example.
 Import ListNotations.
 Local Open Scope Z_scope.
 
@@ -170,6 +177,26 @@ Theorem init_covering_covers_the_index : forall x, IndexWF x -> x_cells x <> [] 
   (length (init_covering x false) <= 9)%nat.
 Proof. exact init_covering_sound. Qed.
 Print Assumptions init_covering_covers_the_index.
+
+(** initQueue with a finite limit: every entry of the clean-up loop over the initial cells is
+    sound: a valid id; with contents it is an index cell under its own id; without, it properly
+    contains an index cell *)
+Theorem init_queue_cleanup_entries_sound : forall x, IndexWF x -> forall cov,
+  (forall ce, In ce cov -> centry_good x ce) ->
+  forall cells, (forall id, In id cells -> valid id) ->
+  forall j skip ce, In ce (cleanup_initial x cells cov j skip) -> centry_good x ce.
+Proof. exact cleanup_entries_good. Qed.
+Print Assumptions init_queue_cleanup_entries_sound.
+
+(** ... and when an initial cell lies inside an index cell (LocateCellID = Indexed), the entry
+    is that index cell under its own id with its own contents, and it contains the initial cell *)
+Theorem init_queue_indexed_branch_enqueues_the_index_cell : forall x, IndexWF x -> forall idI pos,
+  valid idI -> locate_cell x idI = (Indexed, pos) ->
+  let ce := (it_id x pos, Some (it_cell x pos)) in
+  In (cell_at x pos) (x_cells x) /\ rep ce (cell_at x pos) /\
+  fst ce = fst (cell_at x pos) /\ cid_contains (fst ce) idI = true.
+Proof. exact cleanup_indexed_branch. Qed.
+Print Assumptions init_queue_indexed_branch_enqueues_the_index_cell.
 
 (** the search loop empties its queue within the modelled fuel *)
 Theorem search_terminates : forall D (ops : dist_ops D), DistOK ops ->
